@@ -214,7 +214,16 @@ def rule_conversions(repo: Repo) -> List[Ob]:
     n_, k_ = f.params()[:2]
     key = f"{ST}::comb::formula"
     cands = [x for x in ast.walk(f.node) if isinstance(x, ast.BinOp) and isinstance(x.op, (ast.Div, ast.FloorDiv)) and "factorial" in src(x)]
-    if not cands:
+    # multiplicative form: result = result * (n - j + 1) // j  -- the division must come after the multiplication
+    early = [x for x in ast.walk(f.node) if isinstance(x, ast.BinOp) and isinstance(x.op, ast.Mult) and
+             any(isinstance(y, ast.BinOp) and isinstance(y.op, ast.FloorDiv) for y in (x.left, x.right))]
+    mult_loop = [x for x in ast.walk(f.node) if isinstance(x, ast.BinOp) and isinstance(x.op, ast.FloorDiv) and isinstance(x.left, ast.BinOp) and isinstance(x.left.op, ast.Mult)]
+    if not cands and early:
+        obs.append(Ob(R, key, ST, early[0].lineno, f.qualname, False,
+                      f"`{src(early[0])[:60]}` floors the quotient before multiplying: intermediate binomials are not divisible at that point (C(5,2) comes out as 8)"))
+    elif not cands and mult_loop:
+        obs.append(Ob(R, key, ST, mult_loop[0].lineno, f.qualname, True, "multiplicative binomial: multiply first, then divide exactly"))
+    elif not cands:
         obs.append(inconclusive(R, key, ST, f.node.lineno, f.qualname, "factorial quotient not found (a library binomial is equally fine)"))
     else:
         import copy
